@@ -702,10 +702,17 @@ def fold_const_switch(B):
         if t and t["k"] == "call" and t.get("dest"):
             defs.setdefault(t["dest"]["l"], []).append(None)
     nargs = B.raw.get("arg_count", 0)
+    # a local that is ever borrowed mutably (or whose address is taken) can change without an assignment to it
+    shared = set()
+    for b in blocks:
+        for st in b["stmts"]:
+            rv = st.get("rv") or {}
+            if st.get("k") == "assign" and rv.get("k") in ("ref", "rawptr") and (rv.get("mut") or rv.get("k") == "rawptr"):
+                shared.add(rv["place"]["l"])
 
     def const_of_local(l, depth=0, variants=None):
         ds = defs.get(l, [])
-        if len(ds) != 1 or ds[0] is None or depth > 6 or 1 <= l <= nargs:
+        if len(ds) != 1 or ds[0] is None or depth > 6 or 1 <= l <= nargs or l in shared:
             return None
         rv = ds[0]["rv"]
         if rv.get("k") == "agg" and rv.get("agg") == "adt" and not rv.get("ops") and variants and rv.get("variant") in variants:
